@@ -21,6 +21,12 @@ def gen(rng, tier):
         cs.append(Case("pwhash_str %d %d %s %s %s" % (ops, mem, hx(pwd), hx(rbytes(rng, 16)), hx(wrong)), cls="pwhash_str"))
         cs.append(Case("so_pwhash_str 2 %d %d %s %s" % (ops, mem, hx(pwd), hx(wrong)), cls="so_pwhash_str/argon2id"))
         cs.append(Case("so_pwhash_str 1 %d %d %s %s" % (ops + 2, mem, hx(pwd), hx(wrong)), cls="so_pwhash_str/argon2i"))
+    # a Config carried over from a parsed string (the only road to an Argon2i Config), its pass count changed, then `PwHash::hash`:
+    # the new string says what was computed (dryoc and libsodium verify it)
+    for i, (alg, t0) in enumerate((("argon2i", 3), ("argon2i", 4), ("argon2id", 2), ("argon2id", 1))):
+        st = mkstr(alg, t0, 8 + i, rbytes(rng, 16), rbytes(rng, 32))
+        for ops in (1, 2, 3, 5):
+            cs.append(Case("pwhash_rehash_parsed %s %d %s" % (shex(st), ops, hx(rbytes(rng, i))), cls="rehash-with-parsed-config/" + alg, meta={"no_spec": True}))
     # the object API's cost presets (rendered without hashing) and its *_with_defaults forms
     cs.append(Case("pwhash_presets", cls="pwhash_presets"))
     cs.append(Case("pwhash_defaults %s %s" % (hx(b"correct horse"), hx(b"wrong")), cls="pwhash_defaults"))
